@@ -32,7 +32,8 @@ ASSUMPTIONS = ["an edit is a layout edit iff the grammar-derived lexer yields th
 COMMENTS = ["# c", "#", "# G(1) | 0", "#name x", '# "quoted" {p} q0', "#\t tab", "# for int i in 0:3", "#float array A =", "# " + "long comment " * 12,
             "## | [] () , = ** 1+2j", "#" + " " * 40 + "x", "# unbalanced \" quote and { brace", "#include \"x.xbb\"", "# é unicode ü",
             "# form feed\x0cRgate(0.3) | 1", "# vertical tab\x0bVac | 0", "# fs\x1cG | 1", "# gs\x1dG | 1", "# rs\x1eG | 1", "# nel\u0085Xgate(1) | 2",
-            "# ls\u2028Zgate(2) | 0", "# ps\u2029Zgate(2) | 0"]
+            "# ls\u2028Zgate(2) | 0", "# ps\u2029Zgate(2) | 0",
+            "# ends with a backslash \\", "# backslash and spaces \\  ", "#\\", "# path C:\\dir\\"]
 
 
 def signature(toks):
@@ -223,11 +224,11 @@ def check_base(ctx, base, rng, nvariants):
             return ctx.violation("layout-changes-token-stream:" + "+".join(sorted(edits - {"before-metadata", "inside-loop-body"})),
                                  "edits %s (no spacing edit) change the token stream prescribed by the grammar file: the lexer rules treat a layout the property declares insignificant as significant" % sorted(edits), witness)
         if not ok:
-            if edits <= {"eol-comment", "crlf", "cr", "tab-swap"}:
-                ctx.case(text, True, tags=["edit:" + e for e in edits])
-                return ctx.violation("layout-makes-ungrammatical:" + "+".join(sorted(edits)), "edits %s make a valid script ungrammatical" % sorted(edits), witness)
-            ctx.out_of_domain("edit made the text ungrammatical (not a layout the language declares insignificant)")
-            continue
+            # the token stream equals the base's up to the number of consecutive NEWLINE tokens and the spelling of TAB
+            # (checked above), and blank / comment lines are only inserted where the property allows them (between
+            # statements, between loop-body statements, before the metadata): the variant must be a sentence
+            ctx.case(text, True, tags=["edit:" + e for e in edits])
+            return ctx.violation("layout-makes-ungrammatical:" + "+".join(sorted(edits - {"before-metadata", "inside-loop-body"})), "edits %s make a valid script ungrammatical" % sorted(edits), witness)
         nt = len(edits) >= 3 and rich
         ctx.case(text, nt, tags=["edit:" + e for e in edits])
         ctx.sample({"base": base, "variant": text, "edits": sorted(edits)}, limit=1)
